@@ -797,25 +797,50 @@ func rule167(r *core.Run, mws []hostMW) {
 			if mf == nil {
 				continue
 			}
+			// the exits of the matcher: each return, or — for a single exit fed by a merged verdict —
+			// each edge into the merge
+			type exit struct {
+				val    ssa.Value
+				guards []core.Guard
+				inside bool
+				at     string
+			}
+			var exits []exit
 			for _, ret := range core.Returns(mf) {
 				if idx >= len(ret.Results) {
 					continue
 				}
-				k, isConst := ret.Results[idx].(*ssa.Const)
-				if isConst && k.Value != nil && k.Value.Kind() == constant.Bool && !constant.BoolVal(k.Value) {
-					if exitsLoopFromInside(ret) {
-						early = "the matcher rejects from inside the loop over the bases at " + pos(r, ret)
+				if ph, isPhi := ret.Results[idx].(*ssa.Phi); isPhi && ph.Block() == ret.Block() {
+					for k, e := range ph.Edges {
+						if k >= len(ph.Block().Preds) {
+							break
+						}
+						pred := ph.Block().Preds[k]
+						if !core.LiveEdge(pred, ph.Block()) {
+							continue
+						}
+						exits = append(exits, exit{e, core.GuardsOfEdge(pred, ph.Block()), blockExitsLoopFromInside(pred, ph.Block()), pos(r, pred.Instrs[len(pred.Instrs)-1])})
 					}
 					continue
 				}
-				if !isConst && exitsLoopFromInside(ret) {
-					early = "the matcher returns a computed verdict from inside the loop over the bases at " + pos(r, ret)
+				exits = append(exits, exit{ret.Results[idx], core.GuardsOf(ret), exitsLoopFromInside(ret), pos(r, ret)})
+			}
+			for _, x := range exits {
+				k, isConst := x.val.(*ssa.Const)
+				if isConst && k.Value != nil && k.Value.Kind() == constant.Bool && !constant.BoolVal(k.Value) {
+					if x.inside {
+						early = "the matcher rejects from inside the loop over the bases at " + x.at
+					}
 					continue
 				}
-				s2, n2 := evidence(core.GuardsOf(ret))
+				if !isConst && x.inside {
+					early = "the matcher returns a computed verdict from inside the loop over the bases at " + x.at
+					continue
+				}
+				s2, n2 := evidence(x.guards)
 				if !isConst {
 					// computed verdict outside a loop: the tests must be part of the expression
-					vs := r.P.SliceOf(ret.Results[idx], core.SliceOpts{Depth: -1})
+					vs := r.P.SliceOf(x.val, core.SliceOpts{Depth: -1})
 					s2 = s2 || vs.HasCallTo("strings.HasSuffix")
 					for _, cn := range dotCalls {
 						n2 = n2 || vs.HasCallTo(cn)
